@@ -360,6 +360,10 @@ Proof.
   cbn [length seq map nth]. f_equal. rewrite <- seq_shift, map_map. exact IH.
 Qed.
 
+Lemma map_f_nth_seq {A B} (f : A -> B) (l : list A) d :
+  map (fun j => f (nth j l d)) (seq 0 (length l)) = map f l.
+Proof. rewrite <- (map_map (fun j => nth j l d) f), map_nth_seq. reflexivity. Qed.
+
 (* keys produced by __iter__ from the entry values = positions of the used slots *)
 Lemma keys_list es : forall base,
   forallb entry_wf es = true ->
@@ -436,6 +440,15 @@ Proof.
   constructor; [|apply IH]. intros H. apply K in H. lia.
 Qed.
 
+Lemma filter_pad es s :
+  (forall j, In j s -> (length es <= j)%nat) ->
+  filter counted_vals (map (fun j => entry_vals (nth j es None)) s) = [].
+Proof.
+  induction s as [|j s IH]; intros H; [reflexivity|].
+  cbn [map filter]. rewrite nth_overflow by (apply H; now left).
+  change (counted_vals (entry_vals None)) with false. apply IH. intros x Hx. apply H. now right.
+Qed.
+
 (* ================================================================ the theorem *)
 Theorem parse_build_gpt S l :
   sector_ok S -> wf_gpt l = true ->
@@ -494,11 +507,148 @@ Proof.
     erewrite (mapM_nrange _ (fun j => entry_vals (nth j es None))).
     + cbn [bind]. f_equal.
       replace k with (length es + (k - length es))%nat by lia.
-      rewrite seq_app, map_app, filter_app, map_nth_seq.
+      rewrite seq_app, map_app, filter_app, map_f_nth_seq.
       fold counted_vals.
-      replace (filter counted_vals (map _ (seq (0 + length es) (k - length es)))) with (@nil (list fieldval)).
-      * rewrite app_nil_r. apply counted_list, Wes.
-      * symmetry. apply (proj2 (filter_nil_iff _ _)). unfold filter_nil_iff.
-        admit.
-    + admit.
-Admitted.
+      rewrite filter_pad by (intros j Hj; apply in_seq in Hj; lia).
+      rewrite app_nil_r. apply counted_list, Wes.
+    + intros j Hj. destruct (Nat.lt_ge_cases j (length es)) as [Hlt|Hge].
+      * replace (0 + N.of_nat j * esize_of l) with (esize_of l * N.of_nat j) by lia. now apply Rd.
+      * rewrite nth_overflow by exact Hge. unfold table_bytes.
+        rewrite <- (app_nil_r (zeros _)).
+        assert (Hj' : N.of_nat j * esize_of l < L).
+        { apply lt_ceil_mul; [lia|]. subst k. lia. }
+        destruct HS as (s & Hs & HSs).
+        apply read_padding; rewrite lenN_entries_concat by assumption.
+        -- rewrite Hcount. nia.
+        -- unfold esize_of in *. subst L. rewrite HSs in *.
+           set (p := 2 ^ gl_esize_log l) in *. set (ts := table_sectors (512 * s) l) in *.
+           assert (E1 : 0 + N.of_nat j * (128 * p) = 128 * (p * N.of_nat j)) by lia.
+           assert (E2 : 512 * s * ts = 128 * (4 * (s * ts))) by lia.
+           rewrite E1. rewrite E2 in Hj', Hcov |- *.
+           assert (E3 : N.of_nat j * (128 * p) = 128 * (p * N.of_nat j)) by lia.
+           rewrite E3 in Hj'. lia.
+  - (* __getitem__ of a defined number *)
+    intros n e Hin. apply (defined_in_iff es 1) in Hin as [Hn1 Hnth].
+    assert (Hj : (N.to_nat (n - 1) < length es)%nat) by (apply nth_error_Some; congruence).
+    assert (Hnth' : nth (N.to_nat (n - 1)) es None = Some e) by (now apply nth_error_nth).
+    assert (Hin' : In (Some e) es) by (eapply nth_error_In; eauto).
+    pose proof (entries_need_ge es e Hin') as Hneed.
+    pose proof Wes as Wes'. rewrite forallb_forall in Wes'. pose proof (Wes' _ Hin') as We.
+    cbn [entry_wf] in We. pose proof (wf_gentry_parts e We) as (_ & _ & Hfl & _ & _ & Lab).
+    assert (Bnd : S * (ge_last e + 1) <= lenN img) by (eapply N.le_trans; [|exact Fneed]; nia).
+    split.
+    + unfold gpt_getitem. rewrite Ftable. unfold hint. cbn [g_hdr g g_mem g_ss]. rewrite G6, G7.
+      assert (B : gpt_index_bad (Z.of_N n) (Z.of_N (count_of l)) = false).
+      { unfold gpt_index_bad. apply negb_false_iff, andb_true_iff.
+        split; apply Z.leb_le; lia. }
+      rewrite B, N2Z.id. unfold gpt_getitem_offset.
+      replace (n - 1) with (N.of_nat (N.to_nat (n - 1))) by lia.
+      rewrite (Rd _ Hj), Hnth'. cbn [bind].
+      destruct (entry_flags (Some e) We) as (_ & _ & U). rewrite U.
+      change (eb "part_label" (entry_vals (Some e))) with (label_bytes (ge_label e)).
+      change (ei "first_lba" (entry_vals (Some e))) with (ge_first e).
+      change (ei "last_lba" (entry_vals (Some e))) with (ge_last e).
+      change (eb "type_guid" (entry_vals (Some e))) with (ge_type e).
+      pose proof (label_roundtrip _ Lab) as LR.
+      destruct (utf16le_decode (label_bytes (ge_label e))) as [t|]; [|discriminate].
+      cbn [bind] in LR |- *. injection LR as LR. rewrite LR.
+      unfold window, gpt_part_start, gpt_part_finish. cbn [fst snd].
+      rewrite (N.mul_comm S (ge_first e)), (N.mul_comm S (ge_last e + 1)).
+      rewrite N.min_l by nia. reflexivity.
+    + rewrite slice_full_length; nia.
+  - (* undefined numbers *)
+    intros i Hi. unfold gpt_getitem. rewrite Ftable. unfold hint. cbn [g_hdr g g_mem g_ss]. rewrite G6, G7.
+    destruct (gpt_index_bad i (Z.of_N (count_of l))) eqn:B; [reflexivity|].
+    unfold gpt_index_bad in B. apply negb_false_iff, andb_true_iff in B as [B1 B2].
+    apply Z.leb_le in B1, B2.
+    set (n := Z.to_N i). assert (Hn : Z.of_N n = i) by (subst n; lia).
+    assert (Hj : (N.to_nat (n - 1) < length es)%nat) by lia.
+    unfold gpt_getitem_offset.
+    replace (n - 1) with (N.of_nat (N.to_nat (n - 1))) by lia.
+    rewrite (Rd _ Hj). cbn [bind].
+    destruct (nth (N.to_nat (n - 1)) es None) as [e|] eqn:E.
+    + exfalso. apply (Hi n); [|exact Hn].
+      change n with (fst (n, e)). apply in_map. apply (defined_in_iff es 1). split; [lia|].
+      rewrite <- E. now apply nth_error_nth'.
+    + reflexivity.
+Qed.
+
+(* ================================================================ protective MBR *)
+Theorem protective_mbr_rejected S l size :
+  sector_ok S -> wf_gpt l = true -> gl_pmbr l = Some size ->
+  mbr_init (gpt_image S l) S = Err ValueError.
+Proof.
+  intros HS W0 P. pose proof (wf_gpt_parts l W0) as W.
+  destruct (gpt_image_ok S l HS W0) as [_ _ _ (A & rest & Himg & HA)].
+  rewrite P in HA. pose proof (gw_pmbr l W) as Hsz. rewrite P in Hsz.
+  assert (T : PROTECTIVE < 256) by (unfold PROTECTIVE; lia).
+  assert (E16 : entry16 (part_entry PROTECTIVE 1 size)) by (apply part_entry_16; lia).
+  set (img := gpt_image S l) in *.
+  set (hv := boot_vals 0 (part_entry PROTECTIVE 1 size) empty_entry empty_entry empty_entry).
+  assert (Hboot : unpack_from MBR_HEADER img 0 = Ok hv).
+  { rewrite Himg, HA. change 0 with (lenN (@nil N)) at 1. rewrite <- (app_nil_l (boot_sector _ _ _ _ _ ++ rest)).
+    apply read_boot_sector; auto using empty_entry_16; lia. }
+  set (m := {| m_mem := img; m_ss := S; m_hdr := hv |}).
+  assert (GP : get_primary m = Ok [(1, mk (PROTECTIVE, 1, size))]).
+  { unfold get_primary, m. cbn [m_mem m_ss m_hdr]. subst hv. rewrite boot_vals_slots.
+    change [part_entry PROTECTIVE 1 size; empty_entry; empty_entry; empty_entry]
+      with (map slot_entry [SPrimary PROTECTIVE 1 size; SEmpty; SEmpty; SEmpty]).
+    change primary_start with 1. rewrite primary_loop_slots.
+    - reflexivity.
+    - cbn [forallb wf_slot]. apply u32_lt in Hsz. rewrite Hsz. reflexivity.
+    - intros ty first es [H|[H|[H|[H|[]]]]]; discriminate. }
+  unfold mbr_init. change (mbr_header_offset S) with 0. rewrite Hboot. cbn [bind].
+  rewrite mbr_checks_unfold. subst hv. rewrite boot_vals_sig, boot_vals_zero.
+  change (negb (BOOT_SIG =? BOOT_SIG) || (negb (0 =? 0) || false)) with false. cbv iota.
+  fold m. rewrite GP. reflexivity.
+Qed.
+
+Theorem protective_defers S l size :
+  sector_ok S -> wf_gpt l = true -> gl_pmbr l = Some size ->
+  let img := gpt_image S l in
+  (exists g, partitions img S = Ok (TabGPT g) /\
+             tab_keys (TabGPT g) = Ok (map fst (gpt_defined l))) /\
+  mbr_init img S = Err ValueError.
+Proof.
+  intros HS W0 P img. split; [|now apply (protective_mbr_rejected S l size)].
+  destruct (parse_build_gpt S l HS W0) as (t & Hp & Hg & Hk & _). fold img in Hp.
+  destruct t as [g|m]; [|discriminate]. exists g. auto.
+Qed.
+
+(* corruption of a CRC-covered field (everything else intact): rejected exactly
+   when CRC-32 tells the two headers apart -- no claim that it always does *)
+Theorem reject_corrupt_covered_partial mem ss h :
+  unpack_from GPT_HEADER mem (gpt_header_offset ss) = Ok h ->
+  get_bytes GPT_HEADER "signature" h = EFI_PART ->
+  get_int GPT_HEADER "revision" h = GPT_REVISION ->
+  get_int GPT_HEADER "header_size" h = GPT_HEADER_SIZE ->
+  (gpt_init mem ss = Err ValueError <-> header_crc_of h <> get_int GPT_HEADER "header_crc32" h).
+Proof.
+  intros H E1 E2 E3. split.
+  - intros R E4. rewrite (gpt_init_accepts mem ss h H E1 E2 E3 E4) in R. discriminate.
+  - intros N4. eapply reject_bad_gpt; eauto.
+Qed.
+
+(* re-packing an unpacked header never fails (the None branch of header_crc_of) *)
+Theorem repack_total mem off h :
+  bytes_ok mem = true -> unpack_from GPT_HEADER mem off = Ok h ->
+  exists b, pack GPT_HEADER (set GPT_HEADER gpt_crc_replaced_field (VInt 0) h) = Some b.
+Proof.
+  intros B H. unfold unpack_from in H.
+  destruct (lenN mem <? off + sizeN GPT_HEADER); [discriminate|].
+  unfold unpack_exact in H.
+  destruct (unpack GPT_HEADER (takeN (sizeN GPT_HEADER) (dropN off mem))) as [v|] eqn:U; [|discriminate].
+  injection H as ->.
+  assert (V : vals_ok GPT_HEADER h = true)
+    by (eapply unpack_vals_ok; eauto using bytes_ok_takeN, bytes_ok_dropN).
+  apply pack_some.
+  rewrite gpt_header_std in *. unfold STD_GPT_HEADER in *.
+  do 13 (destruct h as [|? h];
+         [cbn [vals_ok] in V; repeat rewrite andb_false_r in V; discriminate V|]).
+  destruct h; [|cbn [vals_ok] in V; repeat rewrite andb_false_r in V; discriminate V].
+  cbn [vals_ok] in V. do 12 (apply andb_true_iff in V as [? V]).
+  change (set _ gpt_crc_replaced_field (VInt 0) [f; f0; f1; f2; f3; f4; f5; f6; f7; f8; f9; f10; f11])
+    with [f; f0; f1; VInt 0; f3; f4; f5; f6; f7; f8; f9; f10; f11].
+  rewrite andb_true_r in V.
+  cbn [vals_ok]. repeat (apply andb_true_iff; split); try assumption; reflexivity.
+Qed.
